@@ -309,6 +309,12 @@ var fixedRules = []ruleDef{
 	{pats: []string{`(?s)L2(?P<la>\w+)(\s+(?P<lb>\w+))?`}, filter: not(lineeq("$$", "lb")), msg: "L2 near, other line $la [$lb]", sugg: "$lb"},
 	{pats: []string{`N1~(?P<nv>\w+)`}, filter: or(nodeis("nv", "Ident"), nodeis("$$", "Expr")), msg: "N1 never"},
 	{pats: []string{`N1~(?P<nv>\w+)`}, filter: and(nodeis("nv", "Node"), not(nodeis("nv", "BasicLit"))), msg: "N1 node $nv"},
+	// one regexp that names two groups alike (Go accepts it): everywhere -- filter, At(), message, suggestion -- the name is
+	// the FIRST group of that name; the second regexp has more than 12 named groups
+	{pats: []string{`D1:(?:(?P<d>un)|(?P<d>deux))`}, filter: ne("d", ""), msg: "D1 first d=[$d] $$", at: "d", sugg: "<$d>"},
+	{pats: []string{`D1:(?:(?P<d>un)|(?P<d>deux))`}, msg: "D1 other d=[$d] $$", at: "d", sugg: "<$d>"},
+	{pats: []string{`D2:(?P<eee>A)(?P<dd>B)(?P<gg>C)(?P<h>D)(?P<ii>E)(?P<jjj>F)(?P<kk>G)(?P<l>H)(?P<mmm>I)(?P<dd>J)(?P<oo>K)(?P<p>L)(?P<qqq>M)(?P<rr>N)`},
+		filter: eq("dd", "B"), msg: "D2 dd=$dd eee=$eee $$", at: "dd", sugg: "$dd$rr"},
 }
 
 // MatchComment calls with several regexps. Every regexp is a comment rule of its own: the alternatives are tried in the
@@ -619,7 +625,7 @@ func main() {
 					return true
 				}
 			}
-			for _, b := range append([]string{"// L1lo hum", "/* L2lo\nhum */", "// N1~lo"}, altFixed...) {
+			for _, b := range append([]string{"// L1lo hum", "/* L2lo\nhum */", "// N1~lo", "// D1:deux", "// D2:ABCDEFGHIJKLMN"}, altFixed...) {
 				if re.MatchString(b) {
 					return true
 				}
@@ -749,6 +755,7 @@ func main() {
 			addc("\t", "// see "+body, "\n")
 		}
 	}
+	dupComments := []string{"// D1:un", "/* D1:deux */", "// x D1:deux D1:un", "// D2:ABCDEFGHIJKLMN", "/* see D2:ABCDEFGHIJKLMN */"}
 	lineComments := []string{"// L1lo hum", "/* L1lo\n hum */", "/* L1lo\n\nhum*/", "// L2lo", "// L2lo hum", "/* L2w9\n\thum */", "/*\nL2lo hum\n*/", "//N1~lo", "/* N1~ N1~w9 */",
 		"/* L1x\r\nxx */"}
 
@@ -799,6 +806,9 @@ func main() {
 		addc("\t", c, "\n")
 	}
 	for _, c := range altFixed {
+		addc("\t", c, "\n")
+	}
+	for _, c := range dupComments {
 		addc("\t", c, "\n")
 	}
 	for i, b := range altBody {
@@ -1110,13 +1120,18 @@ func main() {
 							continue
 						}
 						b, en := idx[2*i], idx[2*i+1]
+						_, dup := pos[name] // a name that occurs twice stands for the FIRST group of that name
 						if b < 0 || en < 0 {
 							caps = append(caps, capText{name, nil})
-							pos[name] = [2]int{c.off, c.off}
+							if !dup {
+								pos[name] = [2]int{c.off, c.off}
+							}
 							continue
 						}
 						caps = append(caps, capText{name, []byte(c.src[b:en])})
-						pos[name] = [2]int{c.off + b, c.off + en}
+						if !dup {
+							pos[name] = [2]int{c.off + b, c.off + en}
+						}
 					}
 					whole := []byte(c.src[idx[0]:idx[1]])
 					if r.Filter != nil {
